@@ -110,6 +110,24 @@ fn name_elided_lifetimes(sig: &mut syn::Signature, with_inputs: bool) -> Option<
     }
 }
 
+/// The type parameter a fn uses for its dependency is `Self` in the generated trait:
+/// that goes for every mention of it, not only for the type of the first parameter.
+pub struct DepsParamToSelf<'a>(pub &'a syn::Ident, pub bool);
+
+impl syn::visit_mut::VisitMut for DepsParamToSelf<'_> {
+    fn visit_type_path_mut(&mut self, type_path: &mut syn::TypePath) {
+        if type_path.qself.is_none() && type_path.path.leading_colon.is_none() {
+            if let Some(first) = type_path.path.segments.first_mut() {
+                if first.ident == *self.0 && first.arguments.is_none() {
+                    first.ident = syn::Ident::new("Self", first.ident.span());
+                    self.1 = true;
+                }
+            }
+        }
+        syn::visit_mut::visit_type_path_mut(self, type_path);
+    }
+}
+
 pub enum ImplReceiverKind {
     // (&self, ..)
     SelfRef,
